@@ -18,7 +18,7 @@ func init() {
 			"R06.5 a subscription's writer is stored nowhere but the subscribers map and is captured by no goroutine.",
 		NotDecided: "absence of panics in user code (writers, replayers); the all-interleavings statement as a theorem (the rules are its structural premises).",
 	})
-	register(&Rule{ID: "R06.1", Title: "close-at-most-once typestate of subscriber channels", Floor: 2, Run: r06_1})
+	register(&Rule{ID: "R06.1", Title: "close-at-most-once typestate of subscriber channels", Floor: 1, Run: r06_1})
 	register(&Rule{ID: "R06.2", Title: "send on a subscriber channel is followed by its close on every path", Floor: 2, Run: r06_2})
 	register(&Rule{ID: "R06.3", Title: "unsubscription arm removes the subscriber before the next select", Floor: 1, Run: r06_3})
 	register(&Rule{ID: "R06.4", Title: "Subscribe return sources", Floor: 3, Run: r06_4})
